@@ -327,8 +327,9 @@ def main():
         "wall_s": round(wall, 2),
         "violations": len(new_violations) + (1 if (rc == 1 and not new_violations) else 0),
     }
-    os.makedirs(os.path.join(VERIF, "evidence"), exist_ok=True)
-    with open(os.path.join(VERIF, "evidence", f"{pid}.json"), "w") as fh:
+    evdir = os.environ.get("VERIF_EVIDENCE_DIR") or os.path.join(VERIF, "evidence")
+    os.makedirs(evdir, exist_ok=True)
+    with open(os.path.join(evdir, f"{pid}.json"), "w") as fh:
         json.dump(evidence, fh, indent=1, default=str)
     for ln in lines:
         print(ln)
